@@ -44,6 +44,9 @@ class World:
         self.r, self.nodes, self.env, self.C, self.E = r, nodes, env, C, E
         self.HasIO, self.Pinata = HasIO, Pinata
         self.shim_ok = shimimport.verify()
+        # LINE yield points inside the functions that stop the poll threads (races between the shutdown and a waking poll thread)
+        import frappy.modulebase as MB
+        self.nwatched = detsched.watch_lines(MB.Module.stopPollThread, MB.Module.joinPollThread)
         self.make_classes()
 
     def make_classes(self):
@@ -99,7 +102,9 @@ class World:
                     D.CoThread(target=work, name=f'own-start-{self.name}').start()
 
             def shutdownModule(self):
-                log(self.name, 'shutdown')
+                s_ = D.CURRENT
+                alive = [t.name for t in s_.threads if '__pollThread' in t.name and t.state != 'done'] if s_ else []
+                log(self.name, 'shutdown', len(alive))
                 if self.opt.get('shutdown_takes'):
                     D.vsleep(self.opt['shutdown_takes'])     # e.g. parking a device: poll threads must be stopped by now
 
@@ -262,6 +267,17 @@ class World:
                 for m in mods:
                     if m.get('a2') == 'pin':
                         m['a2'] = None
+        return scen
+
+    def gen_shutdown_race(self, rng):
+        n = rng.choice([1, 2, 3])
+        mods = [{'name': f'm{i}', 'a1': None, 'a2': None, 'use': 'never', 'cls': 'M', 'export': True, 'x': None,
+                 'read_takes': 0, 'shutdown_takes': rng.choice([0, 0, 2]), 'read_fails': False, 'fail': None} for i in range(n)]
+        scen = {'mods': mods, 'kind': 'shutdown-race', 'other': False,
+                'strategy': ['labels', {'line': rng.choice([0.3, 0.6]), 'event.set': rng.choice([0.0, 0.3])}, 0.0],
+                'sched_seed': rng.randrange(1 << 30)}
+        if rng.random() < 0.4:
+            scen['shared_io'] = 2
         return scen
 
     def gen_barrier(self, rng):
@@ -574,6 +590,15 @@ class World:
                 r.violation('C15/shutdown-while-poll-in-flight', f'shutdownModule of {which} ran while a poll of {ends[0][2]} was still executing '
                             f'(it ended {ends[0][1] - call[1]:.2f} s after shutdown was requested)', case)
                 return
+        # every poll thread is stopped first: with polls that take no time (nothing can be in flight) no poll thread is alive
+        # any more when the first module is shut down
+        if all(not m.get('read_takes') for m in scen['mods']) and not scen.get('shutdown_in_flight'):
+            r.count('shutdowns_with_idle_pollers_checked')
+            early = [e for e in LOG if e[3] == 'shutdown' and len(e) > 4 and e[4]]
+            if early:
+                r.violation('C15/module-shut-down-while-poll-thread-alive', f'{early[0][2]} was shut down while {early[0][4]} poll thread(s) were still alive '
+                            f'(no poll was executing)', case)
+                return
         for name, idx in sd.items():
             later = [e for e in LOG if e[2] == name and e[0] > idx and e[3] in ('doPoll', 'read_value')]
             if later:
@@ -612,6 +637,15 @@ def run_shard(shard):
         w.judge(scen, s, info)
     r.exhaustive = None
     r.count('random_graphs', shard['n'])
+    # ---- races at shutdown: the thread that stops the poll threads is preempted between the lines of stopPollThread /
+    # joinPollThread while the poll threads wake up
+    for i in range(max(8, shard['n'] // 2)):
+        scen = w.gen_shutdown_race(rng)
+        s, info = w.run(scen)
+        w.judge(scen, s, info)
+        r.count('shutdown_race_runs')
+        if info.get('preemptions'):
+            r.count('shutdown_race_runs_with_preemptions')
     # ---- races at the start barrier: a poll thread finishing its first round while the server starts the next module
     # (preemptions directed at thread starts and at the raising of event flags)
     for i in range(max(8, shard['n'] // 2)):
